@@ -9,7 +9,7 @@ from checks import ao_common as ac
 PID = 'C10'
 SCHEDULE_DEPENDENT = True
 RULE = ('one real ActiveObject under virtual (discrete-event) time; 1-4 concurrent timed sources created by post_fifo/'
-        'post_lifo with period from {0.1, 0.25, 1, 7, 60} s, times from 0-6, deferred True/False/default, started at drawn '
+        'post_lifo with period from {0.1, 0.25, 1, 1.5, 2.5, 7, 60} s, times from 0-6, deferred True/False/default, started at drawn '
         'instants (in a quarter of the runs before start_at); the timer threads, the consumer and the clients are interleaved by the seeded scheduler. "exact" stratum: '
         'timers wake exactly on time (in 40% of the runs some handler invocations sleep for 0.5-6 periods: a chart that falls behind must not change what is posted); "jitter" stratum: every timer sleep is late by a drawn amount (injected fault); in 35% of all runs the wall clock (time.time/datetime.now, not the monotonic clock behind sleep) is stepped back or forth by seconds to an hour while sources run (clock fault: must change nothing). Oracle '
         '(timer calendar): the virtual instants at which each source\'s thread appends to the queue are exactly t0 + k*p '
@@ -24,7 +24,7 @@ PLAN = {
   'quick': {'strata': {'exact': 2500, 'jitter': 1500}, 'wall_s': 300, 'chunk': 50, 'min_conclusive': 800},
   'thorough': {'strata': {'exact': 70000, 'jitter': 40000}, 'wall_s': 900, 'chunk': 100, 'min_conclusive': 800},
 }
-PERIODS = [0.1, 0.25, 1, 7, 60]
+PERIODS = [0.1, 0.25, 1, 1.5, 2.5, 7, 60]
 
 
 def generate(seed, stratum, tier):
